@@ -264,6 +264,7 @@ pub fn c14_profile() -> Profile {
     p.policy.reboot_allowed_permille = 300;
     p.next_delays_s = vec![0, 1, 60, 3600, 18000, 4_000_000_000];
     p.srv.big_size_permille = 300;
+    p.neighbour_permille = 200;
     p
 }
 
@@ -362,7 +363,13 @@ pub fn c18_profile() -> Profile {
 }
 
 fn c18_batches(tier: &str) -> Vec<Batch> {
-    vec![Batch { name: "c18-main".into(), profile: c18_profile(), runs: scale(tier, 15_000, 400_000), exec: exec_c18, strata: None }]
+    let mut e = c18_profile();
+    e.name = "c18-crashenum".into();
+    e.crash_horizon = CRASH_K;
+    vec![
+        Batch { name: "c18-main".into(), profile: c18_profile(), runs: scale(tier, 15_000, 400_000), exec: exec_c18, strata: None },
+        Batch { name: "c18-crashenum".into(), profile: e, runs: scale(tier, 15 * CRASH_K, 800 * CRASH_K), exec: exec_c18, strata: Some(crash_enum) },
+    ]
 }
 
 fn exec_c19_ctx(p: &Profile, cfg: &RunCfg) -> (RunOut, MonOut) {
@@ -507,6 +514,8 @@ fn c13_batches(tier: &str) -> Vec<Batch> {
     p.spurious_poll_permille = 150;
     p.latency = [5, 3, 2];
     p.installer.max_progress = 6;
+    p.installer.cancel_progress_permille = 150;
+    p.neighbour_permille = 300;
     p.srv.app_outcome = [25, 65, 4, 3, 3];
     p.drop_stream_permille = 0;
     p.drop_handles_permille = 50;
@@ -578,11 +587,29 @@ pub fn c09_profile() -> Profile {
     p
 }
 
+/// Fault enumeration over sampled histories: run index i re-runs history i/K with the crash
+/// placed at interaction 1 + i%K (K = 240 covers the interactions of two to three checks).
+const CRASH_K: u64 = 240;
+fn crash_enum(i: u64) -> Vec<(String, u64)> {
+    vec![("__seed_index".to_string(), i / CRASH_K), ("crash/enabled".to_string(), 1), ("crash/at".to_string(), i % CRASH_K)]
+}
+
 fn c08_batches(tier: &str) -> Vec<Batch> {
-    vec![Batch { name: "c08-main".into(), profile: c08_profile(), runs: scale(tier, 12_000, 300_000), exec: exec_c08, strata: None }]
+    let mut v = vec![Batch { name: "c08-main".into(), profile: c08_profile(), runs: scale(tier, 12_000, 300_000), exec: exec_c08, strata: None }];
+    let mut e = c08_profile();
+    e.name = "c08-crashenum".into();
+    e.crash_horizon = CRASH_K;
+    v.push(Batch { name: "c08-crashenum".into(), profile: e, runs: scale(tier, 20 * CRASH_K, 1000 * CRASH_K), exec: exec_c08, strata: Some(crash_enum) });
+    v
 }
 fn c09_batches(tier: &str) -> Vec<Batch> {
-    vec![Batch { name: "c09-main".into(), profile: c09_profile(), runs: scale(tier, 12_000, 300_000), exec: exec_c09, strata: None }]
+    let mut e = c09_profile();
+    e.name = "c09-crashenum".into();
+    e.crash_horizon = CRASH_K;
+    vec![
+        Batch { name: "c09-main".into(), profile: c09_profile(), runs: scale(tier, 12_000, 300_000), exec: exec_c09, strata: None },
+        Batch { name: "c09-crashenum".into(), profile: e, runs: scale(tier, 15 * CRASH_K, 600 * CRASH_K), exec: exec_c09, strata: Some(crash_enum) },
+    ]
 }
 
 fn adversarial_net() -> NetRates {
